@@ -74,6 +74,7 @@ type c12Ctx struct {
 	dec     *rlwe.Decryptor
 	becd    *bgv.Encoder
 	cecd    *ckks.Encoder
+	cecdBig *ckks.Encoder // precision 90 bits: the big.Float path of the encoder
 	cache   map[c12KeyID]*rlwe.GaloisKey
 	maxErr  float64
 }
@@ -123,6 +124,7 @@ func newC12CtxQP(scheme string, logN int, logQ, logP []int) *c12Ctx {
 		x.cp, x.t, x.rows, x.maxCols, x.logMaxC = p, 0, 1, p.MaxSlots(), p.LogMaxSlots()
 		x.rp = p.GetRLWEParameters()
 		x.cecd = ckks.NewEncoder(p)
+		x.cecdBig = ckks.NewEncoder(p, 90)
 		x.kgen = rlwe.NewKeyGenerator(p)
 		x.sk = x.kgen.GenSecretKeyNew()
 		x.enc = rlwe.NewEncryptor(p, x.sk)
@@ -143,6 +145,9 @@ func (x *c12Ctx) newScale(s uint64) rlwe.Scale {
 
 // ltScale: the Scale field of the transformation's Parameters, built the way lt.skind says
 func (x *c12Ctx) ltScale(lt *c12LT) rlwe.Scale {
+	if lt.scaleBig != nil {
+		return rlwe.NewScale(lt.scaleBig)
+	}
 	switch lt.skind {
 	case 1:
 		return x.rp.DefaultScale()
@@ -267,9 +272,18 @@ type c12LT struct {
 	scale   uint64
 	skind   int // how Parameters.Scale is built: 0 params.NewScale(scale) (bgv: modulus t attached; ckks: rlwe.NewScale),
 	// 1 params.DefaultScale() (scale = its value), 2 rlwe.NewScale(scale) WITHOUT modulus (bgv: scale may be >= t)
+	scaleBig *big.Int // ckks, non-nil: the scale (e.g. a product of two primes of the chain, far above 2^64)
+	encBig   bool     // ckks: encode the diagonals with the arbitrary-precision encoder (prec 90: embedArbitrary)
 	logCols int
 	idx     []int     // diagonal indices as given by the user (may be negative)
 	diag    [][]int64 // diag[k] = rows*cols values of diagonal idx[k]
+}
+
+func (lt *c12LT) scaleInt() *big.Int {
+	if lt.scaleBig != nil {
+		return lt.scaleBig
+	}
+	return new(big.Int).SetUint64(lt.scale)
 }
 
 func (x *c12Ctx) red(v int64) int64 {
@@ -341,7 +355,11 @@ func (x *c12Ctx) build(lt *c12LT) (b c12Built) {
 	p := ckkslt.Parameters{DiagonalsIndexList: dg.DiagonalsIndexList(), LevelQ: lt.level, LevelP: lt.levelP,
 		Scale: x.ltScale(lt), LogDimensions: x.dims(lt.logCols), LogBabyStepGiantStepRatio: lt.ratio}
 	l := ckkslt.NewTransformation(x.cp, p)
-	if err := ckkslt.Encode(x.cecd, dg, l); err != nil {
+	ecd := x.cecd
+	if lt.encBig {
+		ecd = x.cecdBig
+	}
+	if err := ckkslt.Encode(ecd, dg, l); err != nil {
 		b.encErr = true
 	}
 	b.common = clt.LinearTransformation(l)
@@ -421,7 +439,7 @@ func (x *c12Ctx) describe(cs *c12Case) string {
 	}
 	fmt.Fprintf(&sb, " v=%s", c12I64(cs.v))
 	for _, lt := range cs.lts {
-		fmt.Fprintf(&sb, " LT ratio=%d lvl=%d scale=%d levelp=%d skind=%d", lt.ratio, lt.level, lt.scale, lt.levelP, lt.skind)
+		fmt.Fprintf(&sb, " LT ratio=%d lvl=%d scale=%s levelp=%d skind=%d encbig=%d", lt.ratio, lt.level, lt.scaleInt().String(), lt.levelP, lt.skind, b2i(lt.encBig))
 		for k, d := range lt.idx {
 			fmt.Fprintf(&sb, " D %d %s", d, c12I64(lt.diag[k]))
 		}
@@ -462,6 +480,11 @@ func (x *c12Ctx) runCase(c *Ctx, cs *c12Case) {
 				seen[g] = true
 				adv = append(adv, g)
 			}
+		}
+	}
+	for i := range built {
+		if !built[i].encErr {
+			x.qpConsistent(c, cs.lts[i], built[i].common)
 		}
 	}
 	if anyEncErr {
@@ -584,6 +607,43 @@ func (x *c12Ctx) runCase(c *Ctx, cs *c12Case) {
 	c.Emit(desc, sb.String())
 }
 
+// qpConsistent: every encoded diagonal is ONE integer polynomial: its limbs modulo the auxiliary primes P are the
+// residues of the (centred) integer polynomial its limbs modulo Q reconstruct.
+func (x *c12Ctx) qpConsistent(c *Ctx, lt *c12LT, l clt.LinearTransformation) {
+	tag := fmt.Sprintf("%s logN=%d lvl=%d levelp=%d big=%d", x.scheme, x.logN, lt.level, lt.levelP, b2i(lt.scaleBig != nil))
+	d := ""
+	N := x.rp.N()
+	coeffs := make([]*big.Int, N)
+	for i := range coeffs {
+		coeffs[i] = new(big.Int)
+	}
+	keys := c12Keys(l)
+	for _, k := range keys {
+		v := l.Vec[k]
+		if v.P.Level() < 0 {
+			continue
+		}
+		rq := x.rp.RingQ().AtLevel(v.Q.Level())
+		rpp := x.rp.RingP().AtLevel(v.P.Level())
+		q, p := v.Q.CopyNew(), v.P.CopyNew()
+		rq.IMForm(*q, *q)
+		rq.INTT(*q, *q)
+		rpp.IMForm(*p, *p)
+		rpp.INTT(*p, *p)
+		rq.PolyToBigintCentered(*q, 1, coeffs)
+		tmp := new(big.Int)
+		for j, pj := range rpp.ModuliChain()[:v.P.Level()+1] {
+			pb := new(big.Int).SetUint64(pj)
+			for i := 0; i < N && d == ""; i++ {
+				if tmp.Mod(coeffs[i], pb); tmp.Uint64() != p.Coeffs[j][i] {
+					d = fmt.Sprintf("diagonal key %d coefficient %d: the limb mod P[%d] is %d, the Q limbs give %s mod P[%d] = %d", k, i, j, p.Coeffs[j][i], coeffs[i].String(), j, tmp.Uint64())
+				}
+			}
+		}
+	}
+	c.Probe("encode_qp_consistent", tag, "C12-encode-qp", d)
+}
+
 // scaleProbe: the recorded output scale is EXACTLY the documented ctIn.Scale * matrix.Scale — bgv: the integer
 // product reduced modulo t, carrying the modulus t (rlwe.Scale.Mod), whichever way the transformation's scale was
 // built (with or without a modulus, below or above t); along EvaluateSequential divided by the consumed q_l mod t.
@@ -619,7 +679,7 @@ func (x *c12Ctx) scaleProbe(c *Ctx, cs *c12Case, i int, out *rlwe.Ciphertext, de
 		}
 	} else if cs.mode != "seq" {
 		w := new(big.Float).SetPrec(256).SetUint64(cs.ctScale)
-		w.Mul(w, new(big.Float).SetPrec(256).SetUint64(cs.lts[i].scale))
+		w.Mul(w, new(big.Float).SetPrec(256).SetInt(cs.lts[i].scaleInt()))
 		if out.Scale.Mod != nil {
 			d = "the output scale carries a modulus"
 		} else if out.Scale.Value.Cmp(w) != 0 {
@@ -684,7 +744,20 @@ func (x *c12Ctx) continuations(c *Ctx, cs *c12Case, i int, out *rlwe.Ciphertext,
 		})
 		check("cont_rescale", ct, st, want)
 	}
-	if room(20) {
+	if out.Level() >= 2 && x.scheme == "ckks" && out.Scale.Log2()-math.Log2(float64(x.rp.Q()[out.Level()]))-math.Log2(float64(x.rp.Q()[out.Level()-1])) >= 30 {
+		// a transformation scale of two primes is rescaled twice
+		ct := out.CopyNew()
+		st := Try(func() string {
+			for k := 0; k < 2; k++ {
+				if err := ev.Rescale(ct, ct); err != nil {
+					return "err"
+				}
+			}
+			return "ok"
+		})
+		check("cont_rescale_twice", ct, st, want)
+	}
+	if room(34) {
 		ct := out.CopyNew()
 		var pt *rlwe.Plaintext
 		small := make([]int64, n)
@@ -704,7 +777,7 @@ func (x *c12Ctx) continuations(c *Ctx, cs *c12Case, i int, out *rlwe.Ciphertext,
 			}
 		} else {
 			pt = ckks.NewPlaintext(x.cp, ct.Level())
-			pt.Scale = rlwe.NewScale(uint64(1 << 20))
+			pt.Scale = rlwe.NewScale(uint64(1 << 34))
 			pt.LogDimensions = ring.Dimensions{Rows: 0, Cols: cs.logCols}
 			z := make([]float64, n)
 			for k := range z {
@@ -818,6 +891,53 @@ func c12Scales(c *Ctx, x *c12Ctx) {
 				}
 				c.Count(fmt.Sprintf("scales:%s:skind%d", x.scheme, s.kind))
 				x.runCase(c, cs)
+			}
+		}
+	}
+}
+
+// c12BigScales (ckks): transformation scale = q_L * q_(L-1) (about 2^80, far above Q[0]/2 and above 2^64: meant to be
+// rescaled twice), entries up to 2^10 in absolute value, at the highest levels, naive and BSGS, both precision paths of
+// the encoder (float64 / big.Float), every LevelP; value probes on the output and after rescaling twice.
+func c12BigScales(c *Ctx, x *c12Ctx) {
+	L := x.maxLevel()
+	for _, lvl := range []int{L, L - 1} {
+		if lvl < 1 {
+			continue
+		}
+		sb := new(big.Int).Mul(new(big.Int).SetUint64(x.rp.Q()[lvl]), new(big.Int).SetUint64(x.rp.Q()[lvl-1]))
+		for _, ratio := range []int{-1, 0, 2} {
+			for _, encBig := range []bool{false, true} {
+				for _, mode := range []string{"single", "new", "many"} {
+					if !c.Thorough() && (lvl+ratio+b2i(encBig)+len(mode))%2 == 0 {
+						continue
+					}
+					logCols := x.logMaxC
+					if c.rng.Intn(3) == 0 {
+						logCols = 1 + c.rng.Intn(x.logMaxC)
+					}
+					cs := &c12Case{ctLevel: lvl, ctScale: 1 << 40, logCols: logCols, v: x.randVec(c, logCols), mode: mode, cont: true, outLvl: lvl}
+					nlt := 1
+					if mode == "many" {
+						nlt = 2
+					}
+					for i := 0; i < nlt; i++ {
+						lt := x.randLT(c, logCols, 2+c.rng.Intn(3), ratio, lvl)
+						lt.scaleBig, lt.encBig = sb, encBig
+						lt.levelP = c.rng.Intn(x.rp.MaxLevelP() + 1)
+						if i > 0 {
+							lt.levelP = cs.lts[0].levelP
+						}
+						for k := range lt.diag {
+							for j := range lt.diag[k] {
+								lt.diag[k][j] = int64(c.rng.Intn(2049)) - 1024
+							}
+						}
+						cs.lts = append(cs.lts, lt)
+					}
+					c.Count("bigscale:" + mode)
+					x.runCase(c, cs)
+				}
 			}
 		}
 	}
@@ -944,6 +1064,10 @@ func genC12(c *Ctx) {
 			x := newC12Ctx(scheme, logN)
 			c12Evals(c, x)
 			c12Scales(c, x)
+			c12PermE2E(c, x)
+			if scheme == "ckks" {
+				c12BigScales(c, x)
+			}
 		}
 	}
 	c12LevelP(c)
